@@ -348,7 +348,12 @@ func (m c13) Run(c *fw.Ctx) {
 					kind = "tear"
 				}
 				c.Bucket(kind)
-				complete := p.point == "post-header" || p.act == "tear:60"
+				// a state is damaged only if it differs from the finished entry: a
+				// torn header whose unwritten tail happens to be zero bytes (the
+				// body digest ends in 0x00, 1 case in 256 per length) IS the
+				// finished file.
+				cur, _ := os.ReadFile(x.path())
+				complete := bytes.Equal(cur, F)
 				x.judge(bd, kind, fmt.Sprintf("hit=%d action=%s chunk=%d", p.hit, p.act, chunk), !complete, !complete)
 				if strings.HasPrefix(p.act, "tear:") {
 					// cross-check: the same state synthesised from the finished file.
